@@ -321,7 +321,17 @@ class LenEval(SE.SymEval):
             pol = not pol
         if not isinstance(c0, dict):
             return env
+        if c0.get('k') == 'binary' and c0.get('op') == 'And' and pol:
+            return self.assume(c0['b'], True, self.assume(c0['a'], True, env))
+        if c0.get('k') == 'binary' and c0.get('op') == 'Or' and not pol:
+            return self.assume(c0['b'], False, self.assume(c0['a'], False, env))
         env2 = dict(env)
+        if c0.get('k') == 'local' and c0.get('name') in env and env[c0['name']][0] == 'ite' and \
+                'pslice' in repr(env[c0['name']][1])[:4000]:
+            # `let ends_on_duplicate = match path.as_slice() { [.., a, b] => a == b, _ => false };`
+            if pol:
+                env2['#quirk'] = True
+            return env2
         if c0.get('k') == 'match' or (c0.get('k') == 'block' and 'pslice' in repr(c0)[:4000]):
             # `matches!(path.as_slice(), [.., a, b] if ..)`: the osu!stable "no extension" branch
             if pol:
